@@ -68,7 +68,7 @@ POOLS = {
         dict(classes=["own", "own", "sub0"], keys=["p1", "m1", "m2"]),
         dict(classes=["own", "custom", "sub1"], keys=["p1", "p2", "m2"]),
         dict(classes=["own"], keys=["p1", "m1", "m2", "kxy", "kyx", "p1k"]),
-        dict(classes=["own", "sub0", "custom"], keys=["p1", "m1", "xE", "xB"]),
+        dict(classes=["own", "sub0", "falsy"], keys=["p1", "m1", "xE", "xB"]),
     ],
 }
 
